@@ -21,6 +21,9 @@
 (*            hist                  <<"pristine" | "solved", "solved">>:   *)
 (*                                  had the caller's model been optimised  *)
 (*                                  before the first / the repeated run    *)
+(*            nwarm, wmid           number of warm-up points of the        *)
+(*                                  sampler; the third is the midpoint of  *)
+(*                                  the other two                          *)
 (*            msg                   for a ValueError: which documented     *)
 (*                                  refusal (single_point / two_directions)*)
 (*            pf, pv]               validate() codes of the probe points   *)
@@ -110,6 +113,15 @@ Tags(r, clause) ==
   \* the two runs with equal arguments saw the caller's model in different solver states
   \cup (IF clause = "same_seed_same_samples" /\ r.hist[1] # r.hist[2]
         THEN {"caller_model_solved_between_the_two_runs"} ELSE {})
+  \* infeasible rows that break nothing but the mass balances, from a sampler whose three warm-up points are
+  \* two vertices and their midpoint (= the initial centre: near-zero search directions)
+  \cup (IF clause = "rows_feasible" /\
+           \A i \in 1..Len(r.rows) : SxInPolytope(X, r.rows[i], r.cfg.fluxes) = "no" =>
+               (IF r.cfg.fluxes THEN SxAnd(SxFluxLower(X, r.rows[i]) \cup SxFluxUpper(X, r.rows[i]) \cup SxFluxUser(X, r.rows[i]))
+                ELSE SxAnd(SxVarBounds(X, r.rows[i]) \cup SxVarUser(X, r.rows[i]))) # "no"
+        THEN {"only_mass_balance_violated"} ELSE {})
+  \cup (IF clause \in {"rows_feasible", "validate_agrees_on_samples"} /\ r.nwarm = 3 /\ r.wmid
+        THEN {"third_warmup_point_is_midpoint_of_the_other_two"} ELSE {})
   \cup (IF clause = "validate_agrees_on_flux_probes" /\
            \A i \in FluxProbeBad(r) : SxOnlyUserRowsViolated(X, T.probes[i].flux) /\ r.pf[i] = <<"v">>
         THEN {"validate_says_v_where_only_user_rows_are_violated"} ELSE {})
